@@ -93,7 +93,7 @@ impl<'a> Normalize<'a> {
                 && final(self).remaining() == old(self).remaining().skip(pr.0@.len() as int)
                 && (pr.1@ == pr.0@ || map_has(old(self).map, pr.0@, pr.1@))),
             // C02 / C11: WHICH chunk: the longest pattern of the map at the front of the remaining text, else the character itself
-            old(self).remaining().len() > 0 ==> (ret matches Some(pr) && pr.0@.len() == norm_step(old(self).map, old(self).remaining()).0 && pr.1@ == norm_step(old(self).map, old(self).remaining()).1), // [C02 C11]
+            old(self).remaining().len() > 0 ==> (ret matches Some(pr) && pr.0@.len() == norm_step(old(self).map, old(self).remaining()).0 && pr.1@ == norm_step(old(self).map, old(self).remaining()).1), // [C02 C10 C11]
             final(self).windows.v@.len() < old(self).windows.v@.len() || ret is None,
     {
         let mut window = self.windows.next()?;
@@ -117,7 +117,7 @@ impl<'a> Normalize<'a> {
             invariant __lo0 == 1, __hi0 == window@.len() + 1, 1 <= __len0 <= __hi0, self.windows.wf(), self.windows.size == 2, self.map == old(self).map, self.skip == 0,
                 v0 == old(self).windows.v@, k0 == old(self).skip, k0 <= v0.len(),
                 k0 < v0.len(), self.windows.v@ == v0.skip(k0 + 1), window@ == v0.skip(k0).take(imin(2, v0.len() - k0)),
-                forall|l: int| __len0 <= l < __hi0 ==> !has_key_chars(self.map, #[trigger] window@.take(l)), // [C02 C11]
+                forall|l: int| __len0 <= l < __hi0 ==> !has_key_chars(self.map, #[trigger] window@.take(l)), // [C02 C10 C11]
             decreases __len0,
         {
             __len0 -= 1;
@@ -185,8 +185,8 @@ impl Lang {
         ensures final(self).reduce_map == old(self).reduce_map, final(self).compose_map == old(self).compose_map, final(self).pos_map == old(self).pos_map, final(self).char_map == old(self).char_map,
             ret matches Some(v) ==> v@ != word@,
             // C02 / C11: the composed text is the normalisation of the input under the composition table; None when nothing changes
-            ret matches Some(v) ==> v@ == norm_seq(&old(self).compose_map, word@), // [C02 C11]
-            ret is None ==> norm_seq(&old(self).compose_map, word@) == word@, // [C02 C11]
+            ret matches Some(v) ==> v@ == norm_seq(&old(self).compose_map, word@), // [C02 C10 C11]
+            ret is None ==> norm_seq(&old(self).compose_map, word@) == word@, // [C02 C10 C11]
     {
         let buffer = &mut self.norm_buffer1;
         buffer.clear();
@@ -197,7 +197,7 @@ impl Lang {
         loop
             invariant_except_break word@.skip(n) == __it0.remaining(),
             invariant __it0.wf(), __it0.map == &cmap, cmap == old(self).compose_map, 0 <= n <= word@.len(),
-                norm_seq(&cmap, word@) == buffer@ + norm_seq(&cmap, word@.skip(n)), // [C02 C11]
+                norm_seq(&cmap, word@) == buffer@ + norm_seq(&cmap, word@.skip(n)), // [C02 C10 C11]
             ensures n == word@.len(),
             decreases __it0.windows.v@.len(),
         {
@@ -234,8 +234,8 @@ impl Lang {
             ret matches Some(p) ==> p.0@.len() == p.1@.len(), // [C15 C02 C01]
             ret matches Some(p) ==> p.1@ != word@ && p.0@.filter(not_nul()) == word@.filter(not_nul()),
             // C02 / C11: the normalised text is the normalisation of the input under the reduction table; None when nothing changes
-            ret matches Some(p) ==> p.1@ == norm_seq(&old(self).reduce_map, word@), // [C02 C11]
-            ret is None ==> norm_seq(&old(self).reduce_map, word@) == word@, // [C02 C11]
+            ret matches Some(p) ==> p.1@ == norm_seq(&old(self).reduce_map, word@), // [C02 C10 C11]
+            ret is None ==> norm_seq(&old(self).reduce_map, word@) == word@, // [C02 C10 C11]
     {
         let buffer1 = &mut self.norm_buffer1;
         let buffer2 = &mut self.norm_buffer2;
@@ -250,7 +250,7 @@ impl Lang {
             invariant __it0.wf(), __it0.map == &rmap, rmap == old(self).reduce_map, old(self).wf(),
                 buffer1@.len() == buffer2@.len(), // [C15 C02 C01]
                 0 <= n <= word@.len(), buffer1@.filter(not_nul()) == word@.take(n).filter(not_nul()),
-                norm_seq(&rmap, word@) == buffer2@ + norm_seq(&rmap, word@.skip(n)), // [C02 C11]
+                norm_seq(&rmap, word@) == buffer2@ + norm_seq(&rmap, word@.skip(n)), // [C02 C10 C11]
             ensures n == word@.len(), norm_seq(&rmap, word@) == buffer2@,
             decreases __it0.windows.v@.len(),
         {
